@@ -14,6 +14,7 @@
 -/
 import GoMC.Model.Fields
 import GoMC.Model.Chat
+import GoMC.Model.ChatNBT
 namespace GoMC.Model.Chat
 open GoMC GoMC.Spec GoMC.Model
 
@@ -29,3 +30,21 @@ def jsonMessageRead (parse : Bytes → Option JSON) (d : Msg) : Rd (Msg × Nat) 
     | .panic => Rd.crash
 
 end GoMC.Model.Chat
+
+/-! ### `(*chat.Type).ReadFrom` over the NBT form of the two names
+
+`Chat.typeDec` (C17) is parametric in the codec of `Message`; here it is instantiated with C17 stage 2's exact decoder
+on Go values: `(*Message).ReadFrom` into what the name holds (`ChatNBT.readFromInto`; the sender name is decoded INTO
+`t.SenderName`, the target into `new(Message)`).  `typeReadF` fixes the recursion budget of the NBT decoder (the entry
+point takes it from the length of the source at the position of each name). -/
+namespace GoMC.Model.ChatNBT
+open GoMC GoMC.Model GoMC.Model.Chat
+
+def nameCodec : Codec Go.GoVal := ⟨fun _ => ([], 0), readFromInto, messageTy.zero⟩
+def nameCodecF (fuel : Nat) : Codec Go.GoVal := ⟨fun _ => ([], 0), readFromIntoF fuel, messageTy.zero⟩
+
+/-- `(*Type).ReadFrom` into a `Type` holding `old` -/
+def typeRead (old : ChatTypeOf Go.GoVal) : Rd (ChatTypeOf Go.GoVal × Nat) := typeDec nameCodec old
+def typeReadF (fuel : Nat) (old : ChatTypeOf Go.GoVal) : Rd (ChatTypeOf Go.GoVal × Nat) := typeDec (nameCodecF fuel) old
+
+end GoMC.Model.ChatNBT
